@@ -491,6 +491,13 @@ func EncodeBody(t *rapid.T, ctKey string, v any, hostile bool) ([]byte, string) 
 			b, _ := json.Marshal(v)
 			body = b
 		}
+	case "application/yaml", "application/x-yaml":
+		body, _ = json.Marshal(v) // JSON is YAML
+		if rapid.IntRange(0, 1).Draw(t, "yamlkeys") == 0 {
+			// what only YAML can say: keys that are no strings, complex keys, anchors, merge keys, tags, several documents
+			body = []byte(rapid.SampledFrom([]string{"1: a\n", "{1: a, k: {2: b}}\n", "k:\n  true: 1\n  z: s\n", "- {1: x}\n- 2\n", "? [a, b]\n: c\n", "a: 1\nk: {z: s, 3.5: t}\n",
+				"a: &x 1\nk: {z: *x}\n", "base: &b {z: s}\nk:\n  <<: *b\n", "a: !!str 1\n", "a: 1\n---\na: 2\n", "null: 1\n~: 2\n", "k: {? {x: 1} : 2}\n", "a: 2001-01-01\n", "a: 0x1F\nk: {z: yes}\n"}).Draw(t, "yamltext"))
+		}
 	default:
 		body, _ = json.Marshal(v)
 	}
